@@ -806,6 +806,11 @@ static std::string c10_class(double d, unsigned p, Digit::RealFormatType t, cons
     if (idx < 0 || idx >= long(ex.digits.size())) return k + "other";
     char cut  = ex.digits[size_t(idx)];
     bool rest = ex.digits.find_first_not_of('0', size_t(idx) + 1) != std::string::npos;
+    if (cut > '5' && cmp < 0) {
+        // the digit after the cut is 6..9 and the last kept digit was not raised: truncated, not rounded
+        const bool sub = is_float ? (((fbits(float(d)) >> 23) & 0xFF) == 0) : (((dbits(d) >> 52) & 0x7FF) == 0);
+        return k + (sub ? "last-digit-truncated-not-rounded:subnormal" : "last-digit-truncated-not-rounded");
+    }
     if (cut != '5') return k + "other";
     if (rest) {
         if (cmp >= 0) return k + "other";
